@@ -390,3 +390,55 @@ Definition s_WalletDataV5R1 : schema := SSeq [SBool; SUint 32; SUint 32; SBits 2
 
 (* the 288-bit key of suspended_address_list (ConfigParam 44): workchain:int32 address:bits256 *)
 Definition s_AddressWithWorkchain : schema := SSeq [SInt 32; SBits 256].
+
+(** *** further configuration parameters and records (added after round 7)
+    Where the Go type implements only a PREFIX of the block.tlb constructor (the library's own
+    "todo" comments say so) the schema below is that prefix and its name ends in [_prefix]: the
+    obligation then pins order, widths and tags of the fields the library does encode, and says
+    nothing about the fields it leaves out (a decode-side limitation recorded in DESIGN.md). *)
+(* _ workchains:(HashmapE 32 WorkchainDescr) = ConfigParam 12 *)
+Definition s_ConfigParam12 : schema := SSeq [SDictE 32].
+(* _ fundamental_smc_addr:(HashmapE 256 True) = ConfigParam 31 *)
+Definition s_ConfigParam31 : schema := SSeq [SDictE 256].
+(* _ SuspendedAddressList = ConfigParam 44;  _ PrecompiledContractsConfig = ConfigParam 45 *)
+Definition s_ConfigParam44 : schema := SSeq [s_SuspendedAddressList].
+Definition s_ConfigParam45 : schema := SSeq [s_PrecompiledContractsConfig].
+(* _ OracleBridgeParams = ConfigParam 71 (ETH), 72 (BSC), 73 (Polygon) *)
+Definition s_ConfigParamOracleBridge : schema := SSeq [s_OracleBridgeParams].
+(* jetton_bridge_params_v0#00 bridge_address:bits256 oracles_address:bits256 oracles:(HashmapE 256 uint256)
+     state_flags:uint8 burn_bridge_fee:Coins
+   jetton_bridge_params_v1#01 bridge_address:bits256 oracles_address:bits256 oracles:(HashmapE 256 uint256)
+     state_flags:uint8 prices:^JettonBridgePrices external_chain_address:bits256 = JettonBridgeParams *)
+Definition s_JettonBridgeParams : schema :=
+  SAlt [(8%nat, 0, SSeq [SBits 256; SBits 256; SDictE 256; SUint 8; s_Grams]);
+        (8%nat, 1, SSeq [SBits 256; SBits 256; SDictE 256; SUint 8; SRef s_JettonBridgePrices; SBits 256])].
+(* _ JettonBridgeParams = ConfigParam 79 (ETH->TON), 81 (BSC->TON), 82 (Polygon->TON) *)
+Definition s_ConfigParamJettonBridge : schema := SSeq [s_JettonBridgeParams].
+(* cfg_proposal_status#ce expires:uint32 proposal:^ConfigProposal is_critical:Bool voters:(HashmapE 16 True)
+     remaining_weight:int64 validator_set_id:uint256 rounds_remaining:uint8 wins:uint8 losses:uint8 = ConfigProposalStatus *)
+Definition s_ConfigProposalStatus : schema :=
+  SSeq [STag 8 0xce; SUint 32; SRef s_ConfigProposal; SBool; SDictE 16; SInt 64; SUint 256; SUint 8; SUint 8; SUint 8].
+(* the payload of ed25519_signature#5: R:bits256 s:bits256 *)
+Definition s_CryptoSignatureSimpleData : schema := SSeq [SBits 256; SBits 256].
+(* the common head of validators#11 / validators_ext#12: utime_since:uint32 utime_until:uint32 total:(## 16) main:(## 16) *)
+Definition s_ValidatorSetsCommon : schema := SSeq [SUint 32; SUint 32; SUint 16; SUint 16].
+(* _ cell:^Cell st_bits:(## 10) end_bits:(## 10) st_ref:(#<= 4) end_ref:(#<= 4) = VmCellSlice *)
+Definition s_VmCellSlice : schema := SSeq [SCell; SUint 10; SUint 10; SLe 4; SLe 4].
+(* workchain#a6 / workchain_v2#a7 enabled_since:uint32 actual_min_split:(## 8) min_split:(## 8) max_split:(## 8)
+     basic:(## 1) active:Bool accept_msgs:Bool flags:(## 13) zerostate_root_hash:bits256 zerostate_file_hash:bits256
+     version:uint32 [format:(WorkchainFormat basic) and, for v2, split_merge_timings:WcSplitMergeTimings are NOT
+     implemented by the library] = WorkchainDescr *)
+Definition s_WorkchainDescr_fields_prefix : schema :=
+  SSeq [SUint 32; SUint 8; SUint 8; SUint 8; SUint 1; SBool; SBool; SUint 13; SBits 256; SBits 256; SUint 32].
+Definition s_WorkchainDescr_prefix : schema :=
+  SAlt [(8%nat, 0xa6, s_WorkchainDescr_fields_prefix); (8%nat, 0xa7, s_WorkchainDescr_fields_prefix)].
+(* shard_descr#b / shard_descr_new#a seq_no:uint32 reg_mc_seqno:uint32 start_lt:uint64 end_lt:uint64 root_hash:bits256
+     file_hash:bits256 before_split:Bool before_merge:Bool want_split:Bool want_merge:Bool nx_cc_updated:Bool
+     flags:(## 3) next_catchain_seqno:uint32 next_validator_shard:uint64 min_ref_mc_seqno:uint32 gen_utime:uint32
+     [split_merge_at:FutureSplitMerge fees_collected funds_created are NOT implemented by the library] = ShardDescr.
+   next_validator_shard is held in an int64: the same 64 bits. *)
+Definition s_ShardDescr_fields_prefix : schema :=
+  SSeq [SUint 32; SUint 32; SUint 64; SUint 64; SBits 256; SBits 256; SBool; SBool; SBool; SBool; SBool;
+        SUint 3; SUint 32; SInt 64; SUint 32; SUint 32].
+Definition s_ShardDescr_prefix : schema :=
+  SAlt [(4%nat, 0xb, s_ShardDescr_fields_prefix); (4%nat, 0xa, s_ShardDescr_fields_prefix)].
